@@ -12,820 +12,799 @@ Definition show_fres (r : fres) : string :=
   end.
 Definition check (rs : list rune) : string := digest (show_fres (format_res rs)).
 Definition full (rs : list rune) : string := show_fres (format_res rs).
-Eval vm_compute in ("<<<M1389>>>" ++ check (runes_of_ascii "options { // c1
-LittleEndian // c2a
-  // c2b
-= // c3a
-  // c3b
-true ;
-    // c5
-StringPrefixLenType // c6a
-  // c6b
-= u32 ; // c9a
-  // c9b
-ArrayPrefixLenType = u8
-    // c12
-; } // c14a
-  // c14b
-packet // c15
-Heartbeat // c16a
-  // c16b
-{
-    // c17
-string
-    // c18
-msgKind
-    // c19
-, // c20a
-  // c20b
-} // c21a
-  // c21b
-packet // c22
-Logon
-    // c23
-{ repeat
-    // c25
-Heartbeat // c26a
-  // c26b
-, // c27a
-  // c27b
-repeat // c28
-string // c29
-Px // c30a
-  // c30b
-, // c31
-uint8 // c32a
-  // c32b
-Tail
-    // c33
-, char[]
-    // c35
-f1 // c36a
-  // c36b
-,
-    // c37
-} packet
-    // c39
-Cancel // c40
-{ // c41a
-  // c41b
-zchar[ // c42a
-  // c42b
-4
-    // c43
-] OrderId // c45a
-  // c45b
-,
-    // c46
-Logon
-    // c47
-,
-    // c48
-repeat InMsgkind98
-    // c50
-{ // c51
-repeat // c52a
-  // c52b
-u8 // c53a
-  // c53b
-tag7 , // c55
-repeat
-    // c56
-InFlags69 // c57
-{ // c58a
-  // c58b
-char[]
-    // c59
-Note // c60
-, // c61a
-  // c61b
-char[] lastPx // c63a
-  // c63b
-, // c64a
-  // c64b
-char[ 11 ] // c67
-Ref ,
-    // c69
-Logon
-    // c70
-, // c71
-} // c72
-, // c73a
-  // c73b
-repeat // c74
-Heartbeat ,
-    // c76
-} // c77
-, // c78a
-  // c78b
-zchar[ // c79
-7
-    // c80
-] // c81a
-  // c81b
-Px
-    // c82
-, // c83
-u32 seqNo ,
-    // c86
-} // c87
+Eval vm_compute in ("<<<M1683>>>" ++ check (runes_of_ascii "
 root
-    // c88
-packet Reject // c90
-{ i16 // c92a
-  // c92b
-tag7 // c93
-,
-    // c94
-char[
-    // c95
-3 // c96a
-  // c96b
-] // c97
-Qty // c98a
-  // c98b
-, // c99a
-  // c99b
-InRef42 { u8 pad0 // c103a
-  // c103b
-,
-    // c104
-} // c105
-,
-    // c106
-uint32 // c107a
-  // c107b
-f1 // c108a
-  // c108b
-,
-    // c109
-zchar[ // c110
-7 ] OrderId , // c114a
-  // c114b
-zchar[ // c115a
-  // c115b
-8 // c116
-] x ,
-    // c119
-} ")).
-Eval vm_compute in ("<<<M1675>>>" ++ check (runes_of_ascii "  options { packetx 	 /// triple
-	  =42
-;	}  root packet 
-falsey{ @tag(  1 )
-	crc {	repeat 
-char[007
-
-] charz	// 50% %s
-	  `it's`
-	,repeat
-u8  len `
-`
-    ,
-	crc
-trueish 
-,
-}
-	,	match
-float  as
-
-string_
-{	""x y"" 
-:  
-      // " ++ [27880; 37322]%N ++ runes_of_ascii "
-	  //
-zchar ,""" ++ [128512]%N ++ runes_of_ascii """
-	    // " ++ [128512]%N ++ runes_of_ascii " emoji
-	  : string_ 
-// trailing space 
-  	// @lengthOf(
-  ,
-""CRC32""
-	:
-
-options1 ,  [ ""1"" 	 // c
-  ]:	crc  ,
-
-""packet""	// " ++ [27880; 37322]%N ++ runes_of_ascii "
-	:
-options1	,
-	[	42,	""a	b""
-    , 
-      // trailing space 
-    """ ++ [233]%N ++ runes_of_ascii "t" ++ [233]%N ++ runes_of_ascii """	/// triple
-
-	,
-""abc""
-
-    ,
-
-0123456789
-,
-
-    ""{,}""
-,	// trailing space 
-	  00 , """ ++ [233]%N ++ runes_of_ascii "t" ++ [233]%N ++ runes_of_ascii """// packet A { u8 x, }
-    ]:
-asx
-}
-	,repeat f64 charz  , @tag(10  )repeat
-charz
-
-Logon
-
-,
-	@lengthOf(
-
-u8x )
-@calculatedFrom(""a\""b"")
-	@rightPad// @lengthOf(
-	(
-' '
-) 
-u8 
-a1	`u8 x,` ,
-}
-	packet falsey
-{ repeat
-    char[]zchar
-, @tag(255
-    ) @calculatedFrom(
-	""`tick`"" )char[] asx 
-`say ""hi""`
-	,	u8
-	As 
-`u8 x,` , 	 // 50% %s
-  zchar[
-
-00	]
-    uint8x	@lengthOf(// packet A { u8 x, }
-  zchar  )
-	,
-char[  255  ]	uint8x ,
-    Pad	@lengthOf(
-
-    // packet A { u8 x, }
-  _x )
-`" ++ [233]%N ++ runes_of_ascii "`
-    , _x 
-,
-@rightPad (  ' '
-
-    )uint16
-    BodyLength/// triple
-  ,	@lengthOf(
-	int  // " ++ [128512]%N ++ runes_of_ascii " emoji
-  )
-metadata
-tag
-	,
-	int64 string_  `
-` , 
-} root
 
     packet
 
-    o
-{ } options // packet A { u8 x, }
+A
 
+{ }  packet  int	//
   {
-} ")).
-Eval vm_compute in ("<<<M1593>>>" ++ check (runes_of_ascii "packet falsey {
-    /// triple
-    string i8i8 @calculatedFrom(""a\\""),// " ++ [128512]%N ++ runes_of_ascii " emoji
-    @calculatedFrom(""" ++ [233]%N ++ runes_of_ascii "t" ++ [233]%N ++ runes_of_ascii """)
-    repeat a1,
-}
-
-options {
-    falsey = 0
-    // packet A { u8 x, }
-    // c
-    Foo = ""\" ++ [233]%N ++ runes_of_ascii """;
-}
-
-root packet packetx {
-    metadata @lengthOf(asx),
-    // @lengthOf(
-    //	t
-    char[] BodyLength @calculatedFrom(""" ++ [233]%N ++ runes_of_ascii "t" ++ [233]%N ++ runes_of_ascii """) `" ++ [233]%N ++ runes_of_ascii "`,
-    metadata {
-        repeat rootA i64_ `a\`,
-        u8x chars,
-        repeat int64 string_ `{ , }`,
-    },
-    @tag(4294967296)
-    u64 tag @lengthOf(pack),// `tick` ""quote"" 'q'
-    u128 Z9_ ``,
-    repeat i16 lengthOf,
-    @calculatedFrom(""`tick`"")
-    // `tick` ""quote"" 'q'
-    // @lengthOf(
-    repeat char[00] Packet `it's`,
-    uint16 Pad,
-    @calculatedFrom(""a\\"")
-    match int as pack {
-        00 : u,
-        [""x y""] : asx,
-        """ ++ [28040; 24687]%N ++ runes_of_ascii """ : string_,
-        // trailing space 
-        1 : Pad,
-    },
-    @calculatedFrom(""" ++ [233]%N ++ runes_of_ascii "t" ++ [233]%N ++ runes_of_ascii """)
-    roots @calculatedFrom(""// no comment""),
-}
-
-packet zchar {
-    // 50% %s
-    @leftPad( '0' )
-    T `line1
-    line2`,
-}")).
-Eval vm_compute in ("<<<M28>>>" ++ check (runes_of_ascii "options {
-Foo =
-true ; len = '\x00'
-asx =
-'0' ; asx = // packet A { u8 x, }
-3 ;
-// " ++ [128512]%N ++ runes_of_ascii " emoji
-//
-} //	t
-packet	u128{
-    uint8 crc `doc`,
-    Z9_ ,repeat
-i8 roots,	@lengthOf( crc) repeat As `two words` , zchar[	007 ]
-    //x
-    tag `// not a comment` ,} packet pack// c
-{ string msg_type ,@calculatedFrom(	""""	)
-    repeat string
-tag`u8 x,`
-    ,int16 leftPad ,
-@tag(1
-    // " ++ [27880; 37322]%N ++ runes_of_ascii "
-    ) crc ,}
-/// triple
-// a // b
-root packet packetx {
-@rightPad
-(	'0'	) float64 o
-    // a // b
-    `two words`
-,
-repeat //	t
-string_
-    crc , i64
-    As`line1
-line2` ,@lengthOf( rootA //
-)
-u32
-Logon @lengthOf(a1
-) , @calculatedFrom(""""
-    ) @leftPad
-//x
-// @lengthOf(
-(' '
-) uint16 i8i8
-@calculatedFrom( ""// no comment"") , repeat char[]a1
-, u128 {
-// packet A { u8 x, }
-// trailing space 
-falsey @lengthOf( pack ) , int16
-packetx ,
-i64_ @calculatedFrom(""\" ++ [233]%N ++ runes_of_ascii """
-    ) `{ , }`
-    // " ++ [27880; 37322]%N ++ runes_of_ascii "
-    , int64 i8i8 `a\`,
-    }
-, }")).
-Eval vm_compute in ("<<<M1383>>>" ++ check (runes_of_ascii "options {
-    ArrayPrefixLenType = u32;
-    FixedStringPadFromLeft = false;
-    FixedStringPadChar = '0';
-}
-packet Trade {
-    repeat InVenue78 {
-        u16 tag7,
-        repeat InLastpx9 {
-            u8 pad0,
-        },
-        int64 Tail,
-        repeat InQty37 {
-            char[2] OrderId,
-            zchar[6] lastPx,
-            int64 Qty,
-        },
-        uint8 Side2,
-    },
-}
-packet Logon {
-    repeat string venue,
-    @rightPad('\x00') char[3] sym,
-    zchar[9] count,
-    zchar[7] f1,
-    Trade,
-}
-packet Logout {
-}
-root packet Reject {
-    int32 sym,
-    u8 Px,
-    u32 Tail @lengthOf(Body),
-    match Px as Body {
-        184 : Trade,
-        173 : Logon,
-        12 : Logout,
-    },
-    u32 tag7 @calculatedFrom(""CR\
-C32""),
-}
-")).
-Eval vm_compute in ("<<<M165>>>" ++ check (runes_of_ascii "packet Pad { match
-string_
-as
-// c
-// `tick` ""quote"" 'q'
-asx
-{ 7 : len 3 : lengthOf
-,[1
-    ]:
+@calculatedFrom( ""a\""b"" )	u32 
+x_y_z
+	@lengthOf(
+u	)	,repeat _x
 charz
-""{,}""
-:
-    string_
-, ""\n"" :
-tag	,}
-    , @calculatedFrom( ""a	b"" )
-// packet A { u8 x, }
-// " ++ [128512]%N ++ runes_of_ascii " emoji
-i16 calculatedFrom `it's` ,
-@tag(10	) repeat
-    // packet A { u8 x, }
-    o {
-    repeat
-    char[] o  `say ""hi""` ,
-int @calculatedFrom(	""a\\"" ) , Foo { repeat T {f32
-    /// triple
-    A @lengthOf( charz
-) ,  Logon @lengthOf( // c
-pack
-)`a\` ,
-    }
-    , }	,
-// " ++ [128512]%N ++ runes_of_ascii " emoji
-//
-}, } options
-    { i64_=uint32 // trailing space 
-;	falsey = ""a	b"" ; BodyLength
-/// triple
-// c
-=
-'0' ;
-    lengthOf
-    = """ ++ [28040; 24687]%N ++ runes_of_ascii """ ; repeatCount=
-    // @lengthOf(
-    u64}
-")).
-Eval vm_compute in ("<<<M348>>>" ++ check (runes_of_ascii "packet //x
-rootA
+	`tab	here`
+,
+stringy
+stringy ,@calculatedFrom( """ ++ [28040; 24687]%N ++ runes_of_ascii """
+)repeat  
+  // `tick` ""quote"" 'q'
+  // a // b
+	falsey
     {
-    @calculatedFrom( ""{,}""	)
-    @calculatedFrom( ""x y"" ) char[ 0
-    // packet A { u8 x, }
-    ] lengthOf,  @tag( 3 )
-    //	t
-    trueish,charz`" ++ [28040; 24687; 31867; 22411]%N ++ runes_of_ascii "` , match u8x as roots { ""x y"":
-    //	t
-    i64_ // " ++ [128512]%N ++ runes_of_ascii " emoji
-, ""a\\"":
-    As , ""CRC32"" :
-    calculatedFrom
-    //
-    , ""1""
-    :msg_type
-    ,
-[ """ ++ [233]%N ++ runes_of_ascii "t" ++ [233]%N ++ runes_of_ascii """  , 007 ]
-: Foo ,} , u32 lengthOf ,@lengthOf(
-options1 ) x_y_z Logon `100% of %d`, @tag(
-42
-) // packet A { u8 x, }
-A	{ f32a `u8 x,`
-// " ++ [128512]%N ++ runes_of_ascii " emoji
-// packet A { u8 x, }
-, }
-,//x
-@rightPad( ' ' ) char[// c
-65535]f32a `tab	here` ,
-// c
-/// triple
-}
-")).
-Eval vm_compute in ("<<<M327>>>" ++ check (runes_of_ascii "packet crc
-    { @calculatedFrom( ""x y""
-)
-char[] u8x ,
-    } root packet asx //
-{	float32
-    u8x
-`doc`
-// 50% %s
-// trailing space 
+zchar[ 255 ] 
+As	@lengthOf( BodyLength  )
+,match  Z9_
+	as
+
+As	{ [0123456789
 ,
-    }
-packet lengthOf
-{ repeat BodyLength{ match uint8x as matchKey {
-""\n"" : body , 00 :
-f32a ,""" ++ [233]%N ++ runes_of_ascii "t" ++ [233]%N ++ runes_of_ascii """ : rootA  , ""it's""
+
+    007
+,
+
+""a\\""
+    , ""\" ++ [233]%N ++ runes_of_ascii """// 50% %s
+	  ,""x y"" ,
+	3] : i8i8
+
+,}
+
+, 
+}  ,
+f32a
+
+    { match 
+leftPad
+	as
+    crc	{[ 
+""\" ++ [233]%N ++ runes_of_ascii """
+	,	// " ++ [128512]%N ++ runes_of_ascii " emoji
+	""packet""
+,65535
+
+    , ""`tick`"",
+""`tick`"" 
+, ""a\\""
+    ,	""""
+    , 
+    //x
+  ""// no comment""
+	    // @lengthOf(
+
+  //	t
+
+  ]	// 50% %s
 :
-crc ,} , } ,	@tag( 42
-)
-//
-// " ++ [27880; 37322]%N ++ runes_of_ascii "
-roots Z9_ ,
-repeat leftPad
-{  u128 {len	lengthOf /// triple
-, options1 A // " ++ [27880; 37322]%N ++ runes_of_ascii "
-,
-// `tick` ""quote"" 'q'
-/// triple
-u128
-    Header , }
-    , } , @leftPad (
-' ') /// triple
-repeat int32 u8x ,
-    } // @lengthOf(")).
-Eval vm_compute in ("<<<M1807>>>" ++ check (runes_of_ascii "options {
-    string_ = float64;
-}
+calculatedFrom
+""packet""
+	:
+        // c
+	//
+	Packet// c
+, [ //x
+4294967296,
 
-root packet BodyLength {
-    Header,
-    i16 Foo,
-    lengthOf @calculatedFrom(""`tick`"") `// not a comment`,
-    @lengthOf(charz)
+    // c
+  4294967296 , //x
+	""{,}""
     // " ++ [128512]%N ++ runes_of_ascii " emoji
-    repeat u32 a1,
-    calculatedFrom {
-        f64 chars @lengthOf(a1) `u8 x,`,
-    },
-    repeat i8 _x `
-        `,
-}
+	// `tick` ""quote"" 'q'
+      ] :
 
-options {
-}
+    T 
+[0
+    ,0
+, """ ++ [233]%N ++ runes_of_ascii "t" ++ [233]%N ++ runes_of_ascii """
+	,
 
-MetaData i8i8 {
-    // trailing space 
-    MetaDataX A,
-    string asx,
-    Packet Pad `say ""hi""`,
-    u128 stringy,
-    i64 _x,
-}
+    42
+	,
 
-packet x {
-}")).
-Eval vm_compute in ("<<<M1963>>>" ++ check (runes_of_ascii "options {
-    LittleEndian = false;
+    ""a	b"" , 7]  :tag  3 :	As
+, }
+
+,
+    char[]
+	matchKey `crlf
+line` ,	// packet A { u8 x, }
+  }  ,
+repeat
+    zchar[ 
+    //	t
+    4294967296
+
+]
+    As
+	, rootA
+
+    T ,
+        // @lengthOf(
+    // " ++ [128512]%N ++ runes_of_ascii " emoji
+    @tag(65535)@calculatedFrom(
+    ""{,}""  // a // b
+	)  
+  /// triple
+repeat 	 // @lengthOf(
+    i16 Z9_ 
+`{ , }`,@calculatedFrom( ""{,}""
+) 
+len {match	// trailing space 
+		u128 //
+as	zchar  {  [00	,
+    4294967296
+
+    ]  // 50% %s
+  :  charz
+
+    , ""a\\"" :  i8i8,""" ++ [233]%N ++ runes_of_ascii "t" ++ [233]%N ++ runes_of_ascii """
+	:
+
+    x_y_z  ,	65535 
+:	uint8x	,  } 
+,
+
+    repeat
+	leftPad
+	{
+f32 u128 @lengthOf( As
+
+    ),
+	body
+    `" ++ [28040; 24687; 31867; 22411]%N ++ runes_of_ascii "`  ,	rootA 	 // @lengthOf(
+  Pad 
+, } 
+,char[ 00
+
+    ]msg_type
+	`say ""hi""` // `tick` ""quote"" 'q'
+  , 
+      /// triple
+
+	zchar[ 	 // @lengthOf(
+	  0123456789
+]
+    falsey ,
+    // " ++ [27880; 37322]%N ++ runes_of_ascii "
+    	}
+
+    ,
+repeat int
+
+    `a\`  ,
+}
+    root 
+packet
+
+f32a
+{ int8 Header `` ,}")).
+Eval vm_compute in ("<<<M382>>>" ++ check (runes_of_ascii "options {
     StringPrefixLenType = u16;
+    ArrayPrefixLenType = u16;
+}
+
+packet SampleBinary {
+    uint16 MsgType `" ++ [28040; 24687; 31867; 22411]%N ++ runes_of_ascii "`,
+    u16 BodyLenght @lengthOf(Body) `" ++ [28040; 24687; 20307; 38271; 24230]%N ++ runes_of_ascii "`,
+    match MsgType as Body {
+        1 : Logon,
+        2 : Logout,
+        3 : Heartbeat,
+        4 : RiskControlRequest,
+        5 : RiskControlResponse,
+    },
+    @calculatedFrom(""CRC32"")
+    u32 Ckecksum `" ++ [26657; 39564; 21644]%N ++ runes_of_ascii "`,
+}
+
+packet Logon {
+    @leftPad('0')
+    char[10] UserName `" ++ [29992; 25143; 21517]%N ++ runes_of_ascii "`,
+    string Password `" ++ [23494; 30721]%N ++ runes_of_ascii "`,
+    uint64 ClientId `" ++ [23458; 25143; 31471]%N ++ runes_of_ascii "ID`,
+    u16 HeartbeatInterval `" ++ [24515; 36339; 38388; 38548]%N ++ runes_of_ascii "`,
+}
+
+packet Logout {
+    @rightPad('0')
+    char[10] UserName `" ++ [29992; 25143; 21517]%N ++ runes_of_ascii "`,
+    uint64 ClientId `" ++ [23458; 25143; 31471]%N ++ runes_of_ascii "ID`,
+}
+
+packet Heartbeat {
+}
+
+packet RiskControlRequest {
+    string UniqueOrderId `" ++ [21807; 19968; 35746; 21333; 21495]%N ++ runes_of_ascii "`,
+    char[16] ClOrdID `" ++ [23458; 25143; 35746; 21333; 21495]%N ++ runes_of_ascii "`,
+    char[3] MarketID `" ++ [24066; 22330]%N ++ runes_of_ascii "id`,
+    char[12] SecurityID `" ++ [35777; 21048; 20195; 30721]%N ++ runes_of_ascii "`,
+    char Side `" ++ [20080; 21334; 26041; 21521]%N ++ runes_of_ascii "`,
+    char OrderType `" ++ [35746; 21333; 31867; 22411]%N ++ runes_of_ascii "`,
+    u64 Price `" ++ [20215; 26684]%N ++ runes_of_ascii "`,
+    u32 Qty `" ++ [25968; 37327]%N ++ runes_of_ascii "`,
+    repeat string ExtraInfo `" ++ [38468; 21152; 20449; 24687]%N ++ runes_of_ascii "`,
+    repeat SubOrder {
+        char[16] ClOrdID `" ++ [23376; 35746; 21333; 21495]%N ++ runes_of_ascii "`,
+        u64 Price `" ++ [23376; 35746; 21333; 20215; 26684]%N ++ runes_of_ascii "`,
+        u32 Qty `" ++ [23376; 35746; 21333; 25968; 37327]%N ++ runes_of_ascii "`,
+    },
+}
+
+packet RiskControlResponse {
+    string UniqueOrderId `" ++ [21807; 19968; 35746; 21333; 21495]%N ++ runes_of_ascii "`,
+    i32 Status `" ++ [29366; 24577]%N ++ runes_of_ascii "`,
+    string Msg `" ++ [32467; 26524; 20449; 24687]%N ++ runes_of_ascii "`,
+    repeat Detail,
+}
+
+packet Detail {
+    string RuleName `" ++ [35268; 21017; 21517; 31216]%N ++ runes_of_ascii "`,
+    u16 Code `" ++ [21407; 22240; 20195; 30721]%N ++ runes_of_ascii "`,
+}")).
+Eval vm_compute in ("<<<M326>>>" ++ check (runes_of_ascii "root packet Logon // packet A { u8 x, }
+{ calculatedFrom calculatedFrom
+    `it's` ,}  packet	calculatedFrom { @rightPad ( )string
+u // a // b
+@calculatedFrom(""packet"" )
+, @leftPad	('\x00')@tag( 1 ) @tag( 3 ) Packet{ string_	pack , As @calculatedFrom( ""a\""b"" ) `doc` , repeat
+msg_type
+    metadata ,
+// trailing space 
+//x
+} , _x
+`" ++ [233]%N ++ runes_of_ascii "` ,
+zchar[
+3
+]  MetaDataX // `tick` ""quote"" 'q'
+, repeat string asx
+`say ""hi""` ,
+    @lengthOf(
+trueish // " ++ [27880; 37322]%N ++ runes_of_ascii "
+)@lengthOf(uint8x
+    )	@rightPad
+    (
+// " ++ [128512]%N ++ runes_of_ascii " emoji
+//
+)char[ 0123456789 ]T`" ++ [28040; 24687; 31867; 22411]%N ++ runes_of_ascii "` ,}/// triple
+packet x { @rightPad ( )
+    @calculatedFrom(// @lengthOf(
+""it's"" )
+@tag(
+    // " ++ [27880; 37322]%N ++ runes_of_ascii "
+    42 ) packetx
+falsey ,  char[ 1] body ,
+    @calculatedFrom( """ ++ [28040; 24687]%N ++ runes_of_ascii """ )tag @calculatedFrom( ""\" ++ [233]%N ++ runes_of_ascii """ ) ,Packet `100% of %d`/// triple
+,
+    //x
+    @tag(255 ) float32
+body @calculatedFrom(
+""abc""
+// packet A { u8 x, }
+// " ++ [27880; 37322]%N ++ runes_of_ascii "
+) ,
+char f32a , @lengthOf( u ) repeat
+    int32 a1	,@tag( 4294967296 )	f32 o @calculatedFrom(
+    ""\n"" )`tab	here` , char[] calculatedFrom  `two words` ,
+calculatedFrom @lengthOf(
+// packet A { u8 x, }
+// trailing space 
+matchKey ) , }
+")).
+Eval vm_compute in ("<<<M1355>>>" ++ check (runes_of_ascii "options {
+    LittleEndian = true;
+    StringPrefixLenType = u8;
+    ArrayPrefixLenType = u8;
     FixedStringPadFromLeft = true;
     FixedStringPadChar = '0';
 }
-
-packet Fill {
-}
-
-root packet Order {
-    repeat Fill,
-    char[] clOrdID,
-    @rightPad('\x00')
-    char[4] lastPx,
-    char[] OrderId,
-    int8 tag7,
-    u8 f1,
-    u16 count @lengthOf(Body),
-    match f1 as Body {
-        [159, 49] : Fill,
-    },
-    u16 Tail @calculatedFrom(""CRC32""),
-}")).
-Eval vm_compute in ("<<<M129>>>" ++ check (runes_of_ascii "packet int  { uint16 BodyLength
-, zchar[ 255] charz// @lengthOf(
-`100% of %d` ,	Logon@lengthOf(	MetaDataX ), }
-packet// " ++ [27880; 37322]%N ++ runes_of_ascii "
-a1
-    {match pack as // `tick` ""quote"" 'q'
-msg_type{10
-    :	float ,
-""" ++ [233]%N ++ runes_of_ascii "t" ++ [233]%N ++ runes_of_ascii """ :
-charz  , 4294967296 : Foo , """ ++ [233]%N ++ runes_of_ascii "t" ++ [233]%N ++ runes_of_ascii """ : u128 , } , repeat Pad{	repeat Foo
-    //x
-    { uint64
-    // `tick` ""quote"" 'q'
-    Header,repeat roots rootA `say ""hi""`
-, } ,} , } packet	Header {
-}
-")).
-Eval vm_compute in ("<<<M1363>>>" ++ check (runes_of_ascii "options {
-    LittleEndian = true;
-    StringPrefixLenType = u32;
-    ArrayPrefixLenType = u64;
-}
 packet Logon {
-    string OrderId,
-    uint32 lastPx,
-    repeat char[6] Side2,
-    i64 Tail,
-    repeat i8 f1,
+    repeat i8 Ref,
+    @rightPad('0') char[8] msgKind,
+    repeat InOrderid72 {
+        u8 Side2,
+        uint32 Qty,
+        repeat InPrice27 {
+            repeat char[4] Acct,
+            u64 sym,
+        },
+        zchar[4] clOrdID,
+        int16 lastPx,
+        InAcct22 {
+            repeat char[3] OrderId,
+        },
+    },
+    int64 Px,
 }
-packet Party {
+packet Fill {
+    uint16 Qty,
+    repeat char[1] Flags,
+    i8 Ref,
 }
-packet Quote {
-    repeat char[6] clOrdID,
-    repeat Logon,
+packet Logout {
+    @leftPad('0') char[3] x,
+    int8 f1,
+    Logon,
+    uint16 venue,
+    zchar[2] Px,
 }
-root packet Order {
-    zchar[5] Acct,
-    repeat f64 price,
+packet Reject {
+}
+root packet Leg {
+    Fill,
+    u16 msgKind,
+    match msgKind as Body {
+        [182, 83] : Fill,
+        199 : Reject,
+        137 : Logout,
+        35 : Logon,
+    },
+    u32 lastPx @calculatedFrom(""CR\
+C32""),
 }
 ")).
-Eval vm_compute in ("<<<M198>>>" ++ check (runes_of_ascii "options {
-    rootA=i16
-    ;} MetaData len{ float64 pack `crlf
-line`
-,a1
-roots//	t
-, int16
-Header ,zchar[ 65535 ]charz , Packet//
-body `say ""hi""`
-, // `tick` ""quote"" 'q'
-repeatCount x `line1
-line2` ,
-    // packet A { u8 x, }
-    }options{ a1 =
-""`tick`"" ;	float	=	""" ++ [233]%N ++ runes_of_ascii "t" ++ [233]%N ++ runes_of_ascii """ ; Logon = zchar[
-00	]
-; Header= '0' ; }")).
-Eval vm_compute in ("<<<M1715>>>" ++ check (runes_of_ascii "options {
-    LittleEndian = true;
+Eval vm_compute in ("<<<M1966>>>" ++ check (runes_of_ascii "// a // b
+root packet uint8x {
+    repeat x {
+        tag @calculatedFrom(""// no comment"") `it's`,
+    },
+    //x
+    A @calculatedFrom(""abc""),
+    uint64 zchar,
+    //	t
+    //	t
+    zchar[7] msg_type,
+    @calculatedFrom(""" ++ [28040; 24687]%N ++ runes_of_ascii """)
+    crc,
+    // `tick` ""quote"" 'q'
+    f32a Pad,
+    Header,// trailing space 
+    zchar[42] x @calculatedFrom(""\n"") `" ++ [28040; 24687; 31867; 22411]%N ++ runes_of_ascii "`,
+    string len,
 }
 
-packet Sub {
-    u8 a,
-    @calculatedFrom(""CRC16"")
-    uint64 SubSum,
+packet falsey {
+    // " ++ [27880; 37322]%N ++ runes_of_ascii "
+    i64_ @calculatedFrom(""{,}""),
+    repeat string chars,
+    // `tick` ""quote"" 'q'
+    zchar[7] calculatedFrom,
+    Header {
+        char u `crlf
+                line`,
+        repeat char[] tag `a\`,
+        Z9_ @lengthOf(T) `say ""hi""`,
+    },
+    /// triple
+    // " ++ [27880; 37322]%N ++ runes_of_ascii "
+    msg_type @calculatedFrom(""// no comment""),
+    @rightPad('\x00')
+    @lengthOf(asx)
+    falsey,
+}// a // b")).
+Eval vm_compute in ("<<<M1323>>>" ++ check (runes_of_ascii "// top
+options // c0
+{ // c1a
+  // c1b
+FixedStringPadChar
+    // c2
+= // c3
+'0'
+    // c4
+; // c5a
+  // c5b
+} packet // c7a
+  // c7b
+Q
+    // c8
+{ // c9a
+  // c9b
+zchar[ // c10a
+  // c10b
+4 // c11a
+  // c11b
+] // c12
+z // c13a
+  // c13b
+, // c14
+@rightPad // c15
+( // c16a
+  // c16b
+'\x00' // c17
+) char[ 3 // c20
+]
+    // c21
+n
+    // c22
+, // c23a
+  // c23b
+char[ // c24a
+  // c24b
+5
+    // c25
+] // c26
+d // c27
+, // c28a
+  // c28b
+} // c29a
+  // c29b
+root packet R // c32
+{ // c33a
+  // c33b
+Q
+    // c34
+,
+    // c35
+zchar[
+    // c36
+8 // c37a
+  // c37b
+] top // c39a
+  // c39b
+, // c40a
+  // c40b
+repeat // c41
+zchar[ // c42a
+  // c42b
+2 ] // c44
+zs , // c46
+} // c47
+")).
+Eval vm_compute in ("<<<M1615>>>" ++ check (runes_of_ascii "MetaData Pad {
+    u32 u128 `doc`,
+    char[] len `a\`,
+    Header tag,
+    u8 repeatCount `tab	here`,/// triple
+    Pad int,
 }
 
-root packet Frame {
-    u16 MsgType,
-    u16 BodyLen @lengthOf(Body),
-    Sub Body,
-    string note,
-    @calculatedFrom(""CRC16"")
-    uint64 Checksum,
-    u8 tail,
-}")).
-Eval vm_compute in ("<<<M1331>>>" ++ check (runes_of_ascii "packet P1 {
-    u8 a,
-}
-packet P2 {
-    P1,
-}
-packet P3 {
-    P2,
-    P1,
-}
-packet P4 {
-    repeat P3,
-    P2,
-}
-root packet P5 {
-    P4,
-    P3,
-    P1,
-    u8 K,
-    match K as Body {
-        4 : P4,
-        3 : P3,
-        2 : P2,
-        1 : P1,
+packet len {
+    //x
+    /// triple
+    As {
+        pack _x `
+        `,
+        asx {
+            //
+            string calculatedFrom @lengthOf(MetaDataX),
+            stringy u8x,
+            char[255] MetaDataX @calculatedFrom(""""),
+        },
+        calculatedFrom {
+            string_ len,
+        },
+        Header @lengthOf(charz),
     },
 }
-")).
-Eval vm_compute in ("<<<M494>>>" ++ check (runes_of_ascii "packet
-    asx { @calculatedFrom(
-""""  ) @tag( 255 )repeat
-// packet A { u8 x, }
-// trailing space 
-int16 u8x
-,
-@tag(
-    //
-    007 )
-    @tag( 0
-    /// triple
-    ) @tag( 1 string u
-    @lengthOf( T ),
-// `tick` ""quote"" 'q'
-//x
-} // " ++ [128512]%N ++ runes_of_ascii " emoji")).
-Eval vm_compute in ("<<<M512>>>" ++ check (runes_of_ascii "packet
-    asx { @calculatedFrom(
-""""  ) @tag( 255 )repeat
-// packet A { u8 x, }
-// trailing space 
-int16 u8x
-,
-@tag(
-    //
-    007 )
-    @tag( 0
-    /// triple
-    ) @tag( 1) u
-    @lengthOf( T ) ),
-// `tick` ""quote"" 'q'
-//x
-} // " ++ [128512]%N ++ runes_of_ascii " emoji")).
-Eval vm_compute in ("<<<M443>>>" ++ check (runes_of_ascii "packet
-    asx { @calculatedFrom(
-""""  ) @tag( 255 )repeat
-// packet A { u8 x, }
-// trailing space 
-int16 ,
-u8x
-@tag(
-    //
-    007 )
-    @tag( 0
-    /// triple
-    ) @tag( 1) u
-    @lengthOf( T ),
-// `tick` ""quote"" 'q'
-//x
-} // " ++ [128512]%N ++ runes_of_ascii " emoji")).
-Eval vm_compute in ("<<<M471>>>" ++ check (runes_of_ascii "packet
-    asx { @calculatedFrom(
-""""  ) @tag( 255 )repeat
-// packet A { u8 x, }
-// trailing space 
-int16 u8x
-,
-@tag(
-    //
-    007 )
-    @tag( 
-    /// triple
-    ) @tag( 1) u
-    @lengthOf( T ),
-// `tick` ""quote"" 'q'
-//x
-} // " ++ [128512]%N ++ runes_of_ascii " emoji")).
-Eval vm_compute in ("<<<M404>>>" ++ check (runes_of_ascii "packet
-    asx { options
-""""  ) @tag( 255 )repeat
-// packet A { u8 x, }
-// trailing space 
-int16 u8x
-,
-@tag(
-    //
-    007 )
-    @tag( 0
-    /// triple
-    ) @tag( 1) u
-    @lengthOf( T ),
-// `tick` ""quote"" 'q'
-//x
-} // " ++ [128512]%N ++ runes_of_ascii " emoji")).
-Eval vm_compute in ("<<<M1536>>>" ++ check (runes_of_ascii "packet zchar {
-    @lengthOf(charz)
-    zchar @lengthOf(Header) `
-        `,
-    u8 calculatedFrom,
-    @calculatedFrom(""x y"")
-    u128 @calculatedFrom(""it's""),
+
+// " ++ [27880; 37322]%N ++ runes_of_ascii "
+// " ++ [128512]%N ++ runes_of_ascii " emoji
+options {
+    // c
+    // a // b
 }
 
 options {
-    float = 007
-    uint8x = ""`tick`"";
+    packetx = ""`tick`"";/// triple
+    i64_ = ' ';
 }")).
-Eval vm_compute in ("<<<M1432>>>" ++ check (runes_of_ascii "options {
+Eval vm_compute in ("<<<M1742>>>" ++ check (runes_of_ascii "packet x {
+    @lengthOf(options1)
+    uint8 MetaDataX `// not a comment`,
+    packetx,
+    @tag(42)
+    _x @calculatedFrom(""abc"") `" ++ [28040; 24687; 31867; 22411]%N ++ runes_of_ascii "`,
+    @lengthOf(stringy)
+    string trueish `
+    `,
+    o stringy `{ , }`,
+    zchar[007] Logon,// 50% %s
+    @rightPad('\x00')
+    repeat lengthOf {
+        char[65535] u128,
+        int8 A,
+        body {
+            match x as options1 {
+                7 : roots,
+                // " ++ [128512]%N ++ runes_of_ascii " emoji
+                ""CRC32"" : i8i8,
+            },
+        },
+    },
+}
+
+//	t
+packet As {
+}// @lengthOf(")).
+Eval vm_compute in ("<<<M187>>>" ++ check (runes_of_ascii "  packet matchKey
+    { @tag( 4294967296) lengthOf`{ , }`
+, //x
+repeat BodyLength u8x
+    ,  @tag(  007 )
+    // packet A { u8 x, }
+    match o as int	{ [ /// triple
+""a\""b""
+]: Header , } ,@tag( // @lengthOf(
+1 )repeat /// triple
+u128
+    // @lengthOf(
+    {
+    repeat
+    metadata
+float	`
+` , } //
+, @calculatedFrom(
+""""
+    )@tag( 4294967296
+    // a // b
+    ) @tag(  7 ) i64_ Logon ,
+    // " ++ [27880; 37322]%N ++ runes_of_ascii "
+    @rightPad (  '\x00' //x
+)  @calculatedFrom(
+""\" ++ [233]%N ++ runes_of_ascii """ )
+    @rightPad ( //	t
+'0' ) i32 roots ,	}")).
+Eval vm_compute in ("<<<M1813>>>" ++ check (runes_of_ascii "packet 	 // a // b
+	u8x{// trailing space 
+    repeat roots
+{ zchar[42
+	] 
+	    // 50% %s
+	// a // b
+  u 
+@lengthOf( i64_)	`line1
+line2`
+
+, f64
+    Packet ``
+	, zchar[
+
+4294967296
+    ]
+	msg_type ,}
+
+, }root
+	packet
+rootA  {
+	@calculatedFrom(
+""// no comment""
+    )
+@calculatedFrom(	// " ++ [128512]%N ++ runes_of_ascii " emoji
+    """ ++ [233]%N ++ runes_of_ascii "t" ++ [233]%N ++ runes_of_ascii """ )match
+	body
+
+    as  Foo
+	    /// triple
+
+{	10  :
+    a1
+}
+,
+@tag(
+42 )  @calculatedFrom(
+""1""
+
+) repeat 
+int64 float `u8 x,`	,
+}
+
+")).
+Eval vm_compute in ("<<<M1610>>>" ++ check (runes_of_ascii "// top
+options {
+    // c1
+}// c2
+
+MetaData packetx {
+    // c5
+    int falsey `two words`,// c9
+    int32 trueish,// c12
+    char[] u8x,// c15
+    A x `// not a comment`,// c19
+}// c20
+
+root packet i8i8 {
+    // c24
+    @lengthOf(repeatCount)
+    // c27
+    @tag(1)
+    // c30
+    @calculatedFrom(""a	b"")
+    // c33
+    string stringy @calculatedFrom(""\n"") `line1
+        line2`,// c40
+    pack `100% of %d`,// c43
+}// c44")).
+Eval vm_compute in ("<<<M84>>>" ++ check (runes_of_ascii "
+options
+{T = """ ++ [28040; 24687]%N ++ runes_of_ascii """ ; string_
+// @lengthOf(
+// 50% %s
+=
+false; f32a
+    = 0123456789 ; Z9_ = 255} MetaData
+chars // " ++ [27880; 37322]%N ++ runes_of_ascii "
+{ float32	charz
+    `{ , }` ,// @lengthOf(
+zchar[
+    1
+] u8x`100% of %d`
+, uint16 asx `two words`
+,
+    char[ 4294967296 ]	Header
+    , i32 Logon , char[
+0123456789 ]// c
+crc, } packet /// triple
+options1 { falsey	`crlf
+line`
+,
+// `tick` ""quote"" 'q'
+/// triple
+}")).
+Eval vm_compute in ("<<<M1360>>>" ++ check (runes_of_ascii "options {
+    LittleEndian = true;
+    StringPrefixLenType = u16;
+    ArrayPrefixLenType = u16;
+    FixedStringPadFromLeft = true;
     FixedStringPadChar = '0';
 }
-
-packet Q {
-    zchar[4] z,
-    @rightPad('\x00')
-    char[3] n,
-    char[5] d,
+packet Leg {
+    u16 Flags,
+    u8 price,
 }
+packet Quote {
+    uint16 count,
+    InNote89 {
+        repeat Leg,
+    },
+}
+root packet Ack {
+    char[3] price,
+    u64 sym,
+    zchar[1] Tail,
+}
+")).
+Eval vm_compute in ("<<<M1329>>>" ++ check (runes_of_ascii "// top
+packet
+    // c0
+FooBar // c1
+{
+    // c2
+u8 // c3a
+  // c3b
+a
+    // c4
+, // c5
+}
+    // c6
+packet // c7
+foo_bar // c8a
+  // c8b
+{ // c9
+u16 b // c11a
+  // c11b
+, // c12a
+  // c12b
+}
+    // c13
+root
+    // c14
+packet
+    // c15
+R // c16
+{ FooBar // c18
+, // c19a
+  // c19b
+foo_bar // c20
+, // c21
+} // c22
+")).
+Eval vm_compute in ("<<<M1927>>>" ++ check (runes_of_ascii "
+options{
 
-root packet R {
-    Q,
-    zchar[8] top,
-    repeat zchar[2] zs,
-}")).
-Eval vm_compute in ("<<<M495>>>" ++ check (runes_of_ascii "packet
+LittleEndian =
+    true
+;
+} packet 
+Sub {
+
+    u8 a ,
+    u16 SubSum
+@calculatedFrom(
+""CRC16""
+),} root
+    packet 
+Frame
+
+{u16 MsgType
+	,
+
+u16
+
+BodyLen@lengthOf( 
+Body
+	) 
+,
+
+    Sub  Body
+	,
+    string
+note
+
+, u16
+Checksum
+	@calculatedFrom(
+
+""CRC16""	) 
+,	u8 tail	,  }")).
+Eval vm_compute in ("<<<M1877>>>" ++ check (runes_of_ascii "packet rootA {
+    match BodyLength as A {
+        42 : leftPad,
+        1 : u8x,
+        [10, """ ++ [128512]%N ++ runes_of_ascii """] : i8i8,
+        7 : u8x,
+        007 : trueish,
+        // c
+    },
+    o uint8x,
+    repeat zchar[7] pack,
+    string x_y_z @lengthOf(charz) `
+        `,
+}// c")).
+Eval vm_compute in ("<<<M439>>>" ++ check (runes_of_ascii "packet
+    asx { @calculatedFrom(
+""""  ) @tag( 255 )repeat
+// packet A { u8 x, }
+// trailing space 
+`tab	here` u8x
+,
+@tag(
+    //
+    007 )
+    @tag( 0
+    /// triple
+    ) @tag( 1) u
+    @lengthOf( T ),
+// `tick` ""quote"" 'q'
+//x
+} // " ++ [128512]%N ++ runes_of_ascii " emoji")).
+Eval vm_compute in ("<<<M414>>>" ++ check (runes_of_ascii "packet
+    asx { @calculatedFrom(
+""""  i8 @tag( 255 )repeat
+// packet A { u8 x, }
+// trailing space 
+int16 u8x
+,
+@tag(
+    //
+    007 )
+    @tag( 0
+    /// triple
+    ) @tag( 1) u
+    @lengthOf( T ),
+// `tick` ""quote"" 'q'
+//x
+} // " ++ [128512]%N ++ runes_of_ascii " emoji")).
+Eval vm_compute in ("<<<M463>>>" ++ check (runes_of_ascii "packet
+    asx { @calculatedFrom(
+""""  ) @tag( 255 )repeat
+// packet A { u8 x, }
+// trailing space 
+int16 u8x
+,
+@tag(
+    //
+    007 @tag(
+    ) 0
+    /// triple
+    ) @tag( 1) u
+    @lengthOf( T ),
+// `tick` ""quote"" 'q'
+//x
+} // " ++ [128512]%N ++ runes_of_ascii " emoji")).
+Eval vm_compute in ("<<<M511>>>" ++ check (runes_of_ascii "packet
     asx { @calculatedFrom(
 """"  ) @tag( 255 )repeat
 // packet A { u8 x, }
@@ -837,191 +816,270 @@ int16 u8x
     007 )
     @tag( 0
     /// triple
-    ) @tag( 1")).
-Eval vm_compute in ("<<<M722>>>" ++ check (runes_of_ascii "packet
-crc
-{repeat  Foo A  `u8 x,` ,	@lengthOf( uint8x ) string
-matchKey @lengthOf( stringy ) ) `a\`
-,
-    // c
-    }
-MetaData chars{
-leftPad
-    //	t
+    ) @tag( 1) u
+    @lengthOf( T ,
+// `tick` ""quote"" 'q'
+//x
+} // " ++ [128512]%N ++ runes_of_ascii " emoji")).
+Eval vm_compute in ("<<<M1314>>>" ++ check (runes_of_ascii "// top
+packet
+    // c0
+order_item // c1
+{ // c2a
+  // c2b
+u8 // c3a
+  // c3b
+a // c4a
+  // c4b
+, // c5
+} root packet new_order {
+    // c10
+order_item // c11
+, // c12
+u8 // c13a
+  // c13b
+x
+    // c14
+, } // c16a
+  // c16b
+")).
+Eval vm_compute in ("<<<M284>>>" ++ check (runes_of_ascii "packet roots {
+f64	u @calculatedFrom( ""a\\"" ) , @tag( 1	) zchar[ 0
+    ]	stringy @lengthOf( u ) //	t
+,} MetaData
+    body
+    // trailing space 
+    {	BodyLength tag	,
+u32 MetaDataX , // @lengthOf(
+}")).
+Eval vm_compute in ("<<<M1603>>>" ++ check (runes_of_ascii "packet A {
+    Inner {
+        u8 x `a
+                
+                b`,
+        Deep {
+            u8 y `a
+                        
+                        b`,
+        },
+    },
+}")).
+Eval vm_compute in ("<<<M1630>>>" ++ check (runes_of_ascii "
+
+  MetaData
+
+crc 
+      // " ++ [128512]%N ++ runes_of_ascii " emoji
+  { packetx	repeatCount, f32a
+
+As	//x
+	`line1
+line2`	,
     crc
-`" ++ [233]%N ++ runes_of_ascii "`
-,}")).
-Eval vm_compute in ("<<<M687>>>" ++ check (runes_of_ascii "MetaData u
+len `line1
+line2`
+	,
+zchar[
+0123456789 
+]uint8x , zchar[0
+
+    ] As ,} ")).
+Eval vm_compute in ("<<<M701>>>" ++ check (runes_of_ascii "MetaData u
     { } MetaData o
 { float uint8x
 `100% of %d` ,repeatCount u8x, string_ leftPad
 , i32
     Foo , int64 x `two words` , calculatedFrom
 stringy `a\` ,
-} }
+'1'}
 ")).
-Eval vm_compute in ("<<<M593>>>" ++ check (runes_of_ascii "MetaData u
+Eval vm_compute in ("<<<M703>>>" ++ check (runes_of_ascii "MetaData u
     { } MetaData o
 { float uint8x
-, `100% of %d`repeatCount u8x, string_ leftPad
+`100% of %d` ,repeatCount u8x, string_ leftPad
 , i32
-    Foo , int64 x `two words` , calculatedFrom
+    Foo , int64 x `two wor`ds` , calculatedFrom
 stringy `a\` ,
 }
 ")).
-Eval vm_compute in ("<<<M624>>>" ++ check (runes_of_ascii "MetaData u
+Eval vm_compute in ("<<<M648>>>" ++ check (runes_of_ascii "MetaData u
     { } MetaData o
 { float uint8x
-`100% of %d` ,repeatCount u8x, string_ uint64
+`100% of %d` ,repeatCount u8x, string_ leftPad
 , i32
-    Foo , int64 x `two words` , calculatedFrom
+    Foo , x int64 `two words` , calculatedFrom
 stringy `a\` ,
 }
 ")).
-Eval vm_compute in ("<<<M1892>>>" ++ check (runes_of_ascii "root packet trueish {
-    @tag(00)
-    rootA @lengthOf(float),
-    @rightPad(
-    '0' )
-    pack string_,
-}
-
-packet i8i8 {
-    string o @calculatedFrom(""" ++ [128512]%N ++ runes_of_ascii """),
-}")).
-Eval vm_compute in ("<<<M261>>>" ++ check (runes_of_ascii "packet u8x { char[]
-f32a @lengthOf(Foo ) `100% of %d` , repeat
-i8i8 {  A f32a , x `say ""hi""`,
-    // @lengthOf(
-    repeat body rootA `
-`
-    , }
-, }
-
-")).
-Eval vm_compute in ("<<<M1897>>>" ++ check (runes_of_ascii "packet A {
+Eval vm_compute in ("<<<M1864>>>" ++ check (runes_of_ascii "packet A {
     match k as n {
         [
-            ""a"", 22, ""c c"", 4, ""e"",
-            66, ""g"", 8, ""i""
+            1, 22, ""c c"", 4, 5,
+            ""f"", 7, 8, ""i"", 10,
+            11, ""l""
         ] : B,
         2 : C,
     },
 }")).
-Eval vm_compute in ("<<<M1480>>>" ++ check (runes_of_ascii "options {
-    LittleEndian = true;
-}
-
-packet B {
-    u8 a,
-    string s,
-}
-
-root packet P {
-    u16 L @lengthOf(B),
-    B,
-    u8 t,
-}")).
-Eval vm_compute in ("<<<M1764>>>" ++ check (runes_of_ascii "options {
-}// c
-
-options {
-    MetaDataX = char;
-}
-
-MetaData Pad {
-    i8 metadata,
-    string stringy,
-    int8 As `{ , }`,
-}")).
-Eval vm_compute in ("<<<M660>>>" ++ check (runes_of_ascii "MetaData u
-    { } MetaData o
+Eval vm_compute in ("<<<M566>>>" ++ check (runes_of_ascii "MetaData u
+    { }  o
 { float uint8x
 `100% of %d` ,repeatCount u8x, string_ leftPad
 , i32
-    Foo , int64 x")).
-Eval vm_compute in ("<<<M1211>>>" ++ check (runes_of_ascii "options { } options { // c
-MetaDataX = char ; } MetaData Pad { i8 metadata , string stringy , int8 As `{ , }` , }")).
-Eval vm_compute in ("<<<M1243>>>" ++ check (runes_of_ascii "options { } options { MetaDataX = char ; } MetaData Pad { i8 metadata , string stringy , int8 As // c
-`{ , }` , }")).
-Eval vm_compute in ("<<<M879>>>" ++ check (runes_of_ascii "packet A {
-  match k as n {
-    [""a"", ""bb"", ""c c"", ""d"", ""e"", ""f"", ""g"", ""h"", ""i"", ""j""] : B
-    2 : C
-  },
-}")).
-Eval vm_compute in ("<<<M865>>>" ++ check (runes_of_ascii "packet A {
-  match k as n {
-    [""a"", ""bb"", ""c c"", ""d"", ""e"", ""f"", ""g"", ""h"", ""i""] : B,
-    2 : C
-  },
-}")).
-Eval vm_compute in ("<<<M1576>>>" ++ check (runes_of_ascii "  packet 
-FooBar
-{
-u8 a,  }	packet 
-foo_bar{ u16
-    b
-,} root
-
-packet  R  {FooBar
-,
-	foo_bar
-,
-}")).
-Eval vm_compute in ("<<<M1542>>>" ++ check (runes_of_ascii "
-// `tick` ""quote"" 'q'
-    options
-    {
-chars
-    = 65535 
-packetx= ""packet"" 
-Z9_
-='0' ; }
+    Foo , int64 x `two words` , calculatedFrom
+stringy `a\` ,
+}
 ")).
-Eval vm_compute in ("<<<M1916>>>" ++ check (runes_of_ascii "packet A {
-    match k as n {
-        [""a"", ""bb"", ""c c"", ""d""] : B,
-        2 : C,
-    },
-}")).
-Eval vm_compute in ("<<<M1899>>>" ++ check (runes_of_ascii "
+Eval vm_compute in ("<<<M1738>>>" ++ check (runes_of_ascii "MetaData
+	uint8x{	char
+msg_type `two words` ,char[3
+    ]
+	chars
+	`say ""hi""` ,
+	zchar[
+    007]  zchar
+	, 
+    // " ++ [128512]%N ++ runes_of_ascii " emoji
+	}// `tick` ""quote"" 'q'
+")).
+Eval vm_compute in ("<<<M470>>>" ++ check (runes_of_ascii "packet
+    asx { @calculatedFrom(
+""""  ) @tag( 255 )repeat
+// packet A { u8 x, }
+// trailing space 
+int16 u8x
+,
+@tag(
+    //
+    007 )")).
+Eval vm_compute in ("<<<M1669>>>" ++ check (runes_of_ascii "packet
+A {
 
-  packet A	{match
-    k as
-    n{
+match
+	k
 
-[
-1 
-,""bb""
-
-,007	,""d"" ,  5] :  B
-    2: 
-C },
+as  n
+	{[ 
+""a""  , 
+""bb""
+,
+    ""c c""
+, ""d"" ,
+    ""e""
+, ""f""
+,""g""
+	,
+	""h""  ]
+    :
+	B 2  :
+    C
+    }
+, 
 } ")).
-Eval vm_compute in ("<<<M1586>>>" ++ check (runes_of_ascii "packet A {
-    match k as n {
-        [1, 22, 007, 4] : B,
-        2 : C,
-    },
-}")).
-Eval vm_compute in ("<<<M34>>>" ++ check (runes_of_ascii "packet
-    u8x	{
-repeat
-    Foo  { repeat msg_type`it's`  ,	}	, }
-// " ++ [128512]%N ++ runes_of_ascii " emoji
-")).
-Eval vm_compute in ("<<<M1949>>>" ++ check (runes_of_ascii "packet Inner {
-    u8 a,
+Eval vm_compute in ("<<<M1330>>>" ++ check (runes_of_ascii "  packet FooBar
+    {
+	u8
+a,
+
 }
 
-root packet P {
-    Inner ref_obj,
-    u8 x,
-}")).
-Eval vm_compute in ("<<<M807>>>" ++ check (runes_of_ascii "packet A {
+    packet  foo_bar
+{
+	u16 b,
+}
+
+    root
+    packet 
+R
+
+{ FooBar
+,
+
+foo_bar
+	, }
+")).
+Eval vm_compute in ("<<<M1201>>>" ++ check (runes_of_ascii "// c
+options { } options { MetaDataX = char ; } MetaData Pad { i8 metadata , string stringy , int8 As `{ , }` , }")).
+Eval vm_compute in ("<<<M1234>>>" ++ check (runes_of_ascii "options { } options { MetaDataX = char ; } MetaData Pad { i8 metadata ,
+// c
+string stringy , int8 As `{ , }` , }")).
+Eval vm_compute in ("<<<M450>>>" ++ check (runes_of_ascii "packet
+    asx { @calculatedFrom(
+""""  ) @tag( 255 )repeat
+// packet A { u8 x, }
+// trailing space 
+int16 u8x")).
+Eval vm_compute in ("<<<M910>>>" ++ check (runes_of_ascii "packet A {
   match k as n {
-    [1, 22, ""c c"", 4] : B
+    [1, 22, ""c c"", 4, 5, ""f"", 7, 8, ""i"", 10, 11, ""l""] : B,
+    2 : C
+  },
+}")).
+Eval vm_compute in ("<<<M1682>>>" ++ check (runes_of_ascii "
+packet A
+
+    { match
+
+    k as
+    n{
+[
+1 ,
+	22 ,
+    007 
+,	4 
+, 5 ]
+	:
+B
+,
+
+2	:
+C
+}
+,	}
+
+")).
+Eval vm_compute in ("<<<M1803>>>" ++ check (runes_of_ascii "packet A {
+    match k as n {
+        [""a"", ""bb"", ""c c"", ""d"", ""e""] : B,
+        2 : C,
+    },
+}")).
+Eval vm_compute in ("<<<M856>>>" ++ check (runes_of_ascii "packet A {
+  match k as n {
+    [""a"", 22, ""c c"", 4, ""e"", 66, ""g"", 8] : B,
+    2 : C
+  },
+}")).
+Eval vm_compute in ("<<<M1593>>>" ++ check (runes_of_ascii "packet A {
+    match k as n {
+        [""a"", 22, ""c c"", 4] : B,
+        2 : C,
+    },
+}")).
+Eval vm_compute in ("<<<M830>>>" ++ check (runes_of_ascii "packet A {
+  match k as n {
+    [""a"", 22, ""c c"", 4, ""e"", 66] : B,
+    2 : C
+  },
+}")).
+Eval vm_compute in ("<<<M817>>>" ++ check (runes_of_ascii "packet A {
+  match k as n {
+    [""a"", 22, ""c c"", 4, ""e""] : B,
+    2 : C
+  },
+}")).
+Eval vm_compute in ("<<<M1140>>>" ++ check (runes_of_ascii "// top
+root
+    // c0
+packet // c1
+a1 // c2a
+  // c2b
+{ } // c4a
+  // c4b
+")).
+Eval vm_compute in ("<<<M795>>>" ++ check (runes_of_ascii "packet A {
+  match k as n {
+    [""a"", ""bb"", 007] : B,
     2 : C
   },
 }")).
@@ -1031,51 +1089,58 @@ Eval vm_compute in ("<<<M1301>>>" ++ check (runes_of_ascii "root packet P {
     u16 b_len,
 }
 ")).
-Eval vm_compute in ("<<<M777>>>" ++ check (runes_of_ascii "packet A {
-  match k as n {
-    [1, 22] : B
-    2 : C
-  },
-}")).
-Eval vm_compute in ("<<<M1568>>>" ++ check (runes_of_ascii "
-// `tick` ""quote"" 'q'
-		options	{f32a
-    = uint16
-	}
-")).
-Eval vm_compute in ("<<<M430>>>" ++ check (runes_of_ascii "packet
-    asx { @calculatedFrom(
-""""  ) @tag( 255")).
-Eval vm_compute in ("<<<M984>>>" ++ check (runes_of_ascii "options {
-    a = ""x\
-y"";
-    b = ""x\
-y""
-}")).
-Eval vm_compute in ("<<<M1407>>>" ++ check (runes_of_ascii "// top
-root packet a1 {
-    // c3
-}// c4")).
-Eval vm_compute in ("<<<M1087>>>" ++ check (runes_of_ascii "options { a = 1 // c b = 2; // d}")).
-Eval vm_compute in ("<<<M1109>>>" ++ check (runes_of_ascii "packet A { @tag( // a
- 1 ) u8 x, }")).
-Eval vm_compute in ("<<<M975>>>" ++ check (runes_of_ascii "packet A {
-    u8 x `%%d%!`,
-}")).
-Eval vm_compute in ("<<<M915>>>" ++ check (runes_of_ascii "packet A {
+Eval vm_compute in ("<<<M605>>>" ++ check (runes_of_ascii "MetaData u
+    { } MetaData o
+{ float uint8x
+`100% of %d` ,")).
+Eval vm_compute in ("<<<M1445>>>" ++ check (runes_of_ascii "root packet A {
     u8 x `a
-b`,
+            b
+          c`,
 }")).
-Eval vm_compute in ("<<<M1142>>>" ++ check (runes_of_ascii "
-// c
-root packet a1 { }")).
-Eval vm_compute in ("<<<M1088>>>" ++ check (runes_of_ascii "// a// bpacket A {}")).
-Eval vm_compute in ("<<<M1011>>>" ++ check (runes_of_ascii "// c" ++ [133]%N ++ runes_of_ascii "
+Eval vm_compute in ("<<<M1957>>>" ++ check (runes_of_ascii "
 packet A {
-}")).
-Eval vm_compute in ("<<<M1408>>>" ++ check (runes_of_ascii "root packet a1 {
-}")).
-Eval vm_compute in ("<<<M299>>>" ++ check (runes_of_ascii "packet	zchar	{}
+    u8 
+x
+,// a
+      // b
+u8
+
+y,
+}
 ")).
-Eval vm_compute in ("<<<M395>>>" ++ check (runes_of_ascii "packet")).
-Eval vm_compute in ("<<<M728>>>" ++ check (runes_of_ascii "//")).
+Eval vm_compute in ("<<<M1865>>>" ++ check (runes_of_ascii "MetaData i8i8 {
+    // a // b
+    int8 As,
+}")).
+Eval vm_compute in ("<<<M74>>>" ++ check (runes_of_ascii "packet
+// 50% %s
+//
+len { uint8x A , }")).
+Eval vm_compute in ("<<<M1185>>>" ++ check (runes_of_ascii "options { // c
+A = ""// no comment"" }")).
+Eval vm_compute in ("<<<M1928>>>" ++ check (runes_of_ascii "packet A {
+    u8 x `d x`,// c x
+}")).
+Eval vm_compute in ("<<<M957>>>" ++ check (runes_of_ascii "packet A {
+    u8 x `tab
+	x`,
+}")).
+Eval vm_compute in ("<<<M174>>>" ++ check (runes_of_ascii "packet T  { string pack , }
+")).
+Eval vm_compute in ("<<<M220>>>" ++ check (runes_of_ascii "packet Packet
+    { } 	 ")).
+Eval vm_compute in ("<<<M1520>>>" ++ check (runes_of_ascii "// c" ++ [6158]%N ++ runes_of_ascii "
+  packet  A {	}
+")).
+Eval vm_compute in ("<<<M1010>>>" ++ check (runes_of_ascii "packet A {
+}
+// c" ++ [133]%N)).
+Eval vm_compute in ("<<<M1174>>>" ++ check (runes_of_ascii "packet x { }
+// c
+")).
+Eval vm_compute in ("<<<M212>>>" ++ check (runes_of_ascii "options {
+    }
+")).
+Eval vm_compute in ("<<<M555>>>" ++ check (runes_of_ascii "MetaData")).
+Eval vm_compute in ("<<<M734>>>" ++ check (runes_of_ascii " " ++ [12]%N ++ runes_of_ascii " ")).
